@@ -25,7 +25,7 @@ func include(root map[string]any, at any, args ...any) any {
 	switch v := evalArg(root, at, args[0]).(type) {
 	case []any:
 		for _, m := range v {
-			if m == v1 {
+			if equalVals(m, v1) {
 				return true
 			}
 		}
